@@ -43,10 +43,10 @@ def F(att, out=None, alias_from=(), ci=False, req=True, default=None, defer=Fals
 
 
 def O(mode="", addition="none", ignore_required=False, no_default=False, force=None, defer_default=False, ignore_conflicts=False,
-      ci=False, minp=0, maxp=0):
+      ci=False, minp=0, maxp=0, exclude=False):
     return {"mode": mode, "addition": addition, "ignore_required": ignore_required, "no_default": no_default,
             "hasforce": force is not None, "force": val(force) if force is not None else UNPROV, "defer_default": defer_default,
-            "ignore_conflicts": ignore_conflicts, "ci": ci, "minp": minp, "maxp": maxp}
+            "ignore_conflicts": ignore_conflicts, "ci": ci, "minp": minp, "maxp": maxp, "exclude": exclude}
 
 
 SHAPES = {
@@ -108,6 +108,8 @@ def build(decl, opts, dfs, base="Schema"):
             okw[b] = True
     if opts["hasforce"]:
         okw["force_default"] = opts["force"]["n"]
+    if opts["exclude"]:
+        okw["invalid_values"] = "exclude"
     if opts["minp"]:
         okw["min_params"] = opts["minp"]
     if opts["maxp"]:
@@ -176,7 +178,7 @@ def gen_opts(rng):
         if rng.random() < p:
             o[name] = rng.choice(vals)
             tags.append("%s=%s" % (name, o[name]))
-    for name in ("ignore_required", "no_default", "defer_default", "ignore_conflicts", "ci"):
+    for name in ("ignore_required", "no_default", "defer_default", "ignore_conflicts", "ci", "exclude"):
         if rng.random() < 0.15:
             o[name] = True
             tags.append(name)
